@@ -79,7 +79,7 @@ func init() {
 	reg("C03", propCfg{Fuzz: []string{"FuzzConcat"}, FuzzSeconds: 60})
 	reg("C07", propCfg{Fuzz: []string{"FuzzPrograms", "FuzzRobust"}, FuzzSeconds: 90})
 	reg("C08", propCfg{Fuzz: []string{"FuzzHistory"}, FuzzSeconds: 60})
-	reg("C11", propCfg{Fuzz: []string{"FuzzText"}, FuzzSeconds: 60})
+	reg("C11", propCfg{QuickShards: 2, OldTimers: true, Fuzz: []string{"FuzzText"}, FuzzSeconds: 60})
 	reg("C12", propCfg{Fuzz: []string{"FuzzHistories"}, FuzzSeconds: 60})
 	reg("C15", propCfg{Fuzz: []string{"FuzzTputs"}, FuzzSeconds: 60})
 	reg("C20", propCfg{ReplayReps: 20, Fuzz: []string{"FuzzViewport", "FuzzBoxlayout"}, FuzzSeconds: 60})
